@@ -110,6 +110,12 @@ class FlowSampler:
             pytorch_threads=pytorch_threads,
         )
 
+        if result_extension not in ["json", "hdf5", "h5"]:
+            raise ValueError(
+                f"Unknown result extension: {result_extension}. "
+                "Choose from: json, hdf5 or h5"
+            )
+
         self._final_samples = None
         self._nested_samples = None
         self.exit_code = exit_code
@@ -330,6 +336,20 @@ class FlowSampler:
                 **kwargs,
             )
 
+    @staticmethod
+    def _check_posterior_sampling_method(method):
+        """Check the posterior sampling method is valid before sampling."""
+        known_methods = [
+            "rejection_sampling",
+            "multinomial_resampling",
+            "importance_sampling",
+        ]
+        if method not in known_methods:
+            raise ValueError(
+                f"Unknown method of drawing posterior samples: {method}. "
+                f"Choose from: {known_methods}"
+            )
+
     def run_standard_sampler(
         self,
         plot=True,
@@ -371,6 +391,7 @@ class FlowSampler:
             close_pool = self.close_pool
         if posterior_sampling_method is None:
             posterior_sampling_method = "rejection_sampling"
+        self._check_posterior_sampling_method(posterior_sampling_method)
 
         self.ns.initialise()
         self.logZ, self._nested_samples = self.ns.nested_sampling_loop()
@@ -474,6 +495,7 @@ class FlowSampler:
             close_pool = self.close_pool
         if posterior_sampling_method is None:
             posterior_sampling_method = "importance_sampling"
+        self._check_posterior_sampling_method(posterior_sampling_method)
 
         self.ns.nested_sampling_loop()
         self._nested_samples = self.ns.samples
